@@ -78,7 +78,8 @@ Definition s_new (closes : bool) : sloc := {| s_pc := SStart; s_closes := closes
 Inductive rop :=
 | RReg (id created : N)      (* Register(conn{ConnID = id, CreatedAt = created}); id 0 stands for the empty ConnID *)
 | RRem (id : N)              (* Remove(id) *)
-| RAuth (id client : N).     (* UpdateAuth(id, client, ...): binds the identity / moves the client index; an unknown id is an error *)
+| RAuth (id client : N).     (* TunnelRegistry.UpdateAuth(id, tunnel, ...): binds the tunnel id; an unknown id is an error; keys untouched
+                                (for the control registry see xop / cregx_apply below) *)
 Inductive rres := ROk | RRefused | REvicted (id : N) | RNoop.
 
 Definition keys (m : list (N * N)) : list N := map fst m.
@@ -147,6 +148,52 @@ Definition remove_conn (guarded : bool) (r : cregx) (id : N) : cregx :=
   else {| x_map := del (x_map r) id;
           x_ident := del (x_ident r) id;
           x_index := if negb (N.eqb cl 0) && points_here then del (x_index r) cl else x_index r |}.
+
+(* The control registry with identities: operations of ClientRegistry as of /repo eb41b39.
+   XReg id created client   Register(conn); client > 0 = the connection arrives already authenticated as that client:
+                            clientIDMap[client] = conn (the previous holder of the index entry STAYS registered)
+   XRem id                  Remove(id)
+   XAuth id client          UpdateAuth(id, client): unknown id = error; else identity := client, index entries that point to
+                            this connection under another client id are dropped, and — `authevict`, eb41b39 — the connection
+                            the client id currently resolves to, if it is another one, is REMOVED in the same critical
+                            section (two concurrent logins of one client cannot both survive); clientIDMap[client] := id.
+   The connMap component of XReg / XRem is exactly creg_apply's (the index never decides whether a connection is removed). *)
+Inductive xop := XReg (id created client : N) | XRem (id : N) | XAuth (id client : N).
+Definition x_insert (r : cregx) (id t cl : N) : cregx :=
+  {| x_map := (id, t) :: x_map r;
+     x_ident := if N.eqb cl 0 then del (x_ident r) id else (id, cl) :: del (x_ident r) id;
+     x_index := if N.eqb cl 0 then x_index r else (cl, id) :: del (x_index r) cl |}.
+Definition cregx_apply (authevict : bool) (max : nat) (o : xop) (r : cregx) : rres * cregx :=
+  match o with
+  | XReg id t cl =>
+      if N.eqb id 0 then (RRefused, r)
+      else if has (x_map r) id then (ROk, x_insert (remove_conn false r id) id t cl)
+      else if at_cap max (length (x_map r)) then
+        match oldest (x_map r) with
+        | Some old => (REvicted (fst old), x_insert (remove_conn false r (fst old)) id t cl)
+        | None => (RRefused, r)
+        end
+      else (ROk, x_insert r id t cl)
+  | XRem id => if has (x_map r) id then (ROk, remove_conn false r id) else (RNoop, r)
+  | XAuth id cl =>
+      if negb (has (x_map r) id) then (RRefused, r)
+      else
+        let r1 := {| x_map := x_map r; x_ident := (id, cl) :: del (x_ident r) id;
+                     x_index := filter (fun e => negb (N.eqb (snd e) id) || N.eqb (fst e) cl) (x_index r) |} in
+        let old := lookup2 (x_index r1) cl in
+        let r2 := if authevict && has (x_index r1) cl && negb (N.eqb old id) then remove_conn false r1 old else r1 in
+        (ROk, {| x_map := x_map r2; x_ident := x_ident r2; x_index := (cl, id) :: del (x_index r2) cl |})
+  end.
+Definition x_empty : cregx := {| x_map := []; x_ident := []; x_index := [] |}.
+Definition to_rop (o : xop) : rop := match o with XReg id t _ => RReg id t | XRem id => RRem id | XAuth id cl => RAuth id cl end.
+
+Record xloc := { xl_todo : list xop; xl_log : list rres }.
+Definition xstep (apply : xop -> cregx -> rres * cregx) (lo : xloc) (r : cregx) : xloc * cregx :=
+  match xl_todo lo with
+  | [] => (lo, r)
+  | o :: rest => let '(res, r') := apply o r in ({| xl_todo := rest; xl_log := res :: xl_log lo |}, r')
+  end.
+Definition xrun apply (r : cregx) (ts : list xloc) (sched : list nat) := run _ _ (xstep apply) (r, ts) sched.
 
 (* a caller = a script of operations; one step = one operation under the lock *)
 Record rloc := { r_todo : list rop; r_log : list rres }.
